@@ -56,8 +56,23 @@ func encodeSamples(rng *rand.Rand, n int) [][]byte {
 		if rng.Intn(2) == 0 {
 			arch = binary.BigEndian
 		}
+		if i%4 == 1 {
+			// a File that was decoded or encoded before: its header still carries the old values
+			f.Header.CRC = uint16(1 + rng.Intn(65535))
+			f.Header.DataSize = uint32(rng.Intn(100000))
+			f.CRC = uint16(rng.Intn(65536))
+		}
 		if err := fit.Encode(&buf, f, arch); err == nil {
 			out = append(out, buf.Bytes())
+		}
+		if i%4 == 2 {
+			// the same File encoded again after it grew
+			f.FileId.Number = uint16(1 + rng.Intn(1000))
+			f.FileId.ProductName = "verif"
+			var buf2 bytes.Buffer
+			if err := fit.Encode(&buf2, f, arch); err == nil {
+				out = append(out, buf2.Bytes())
+			}
 		}
 	}
 	return out
